@@ -80,6 +80,10 @@ func c11Faults() []c11Fault {
 		}, false},
 		// a call site that called a function the first time it ran meets a name that is shadowed by a number the second time
 		{"call site whose name is shadowed on its second evaluation", func() Expr { return Bin("+", CallE(V("viaSite"), N("0")), CallE(V("shadow"), N("3"))) }, false},
+		// invalid patterns written as regex LITERALS: a runtime error when (and only when) the match is evaluated
+		{"invalid regex literal", func() Expr { return Bin("~", S("a"), &RegexLit{Src: "a("}) }, false},
+		{"invalid regex literal: repeat", func() Expr { return Bin("!~", S("a"), &RegexLit{Src: "x{3,1}"}) }, false},
+		{"invalid regex literal: range", func() Expr { return Bin("~", V("numv"), &RegexLit{Src: "[b-a]"}) }, false},
 		// patterns that are invalid only because of a repetition in braces
 		{"invalid repeat count", func() Expr { return Bin("~", S("aaa"), S("a{3,2}")) }, false},
 		{"repeat count beyond the limit", func() Expr { return Bin("!~", S("x"), S("x{1001}")) }, false},
